@@ -40,19 +40,19 @@ LEVEL_TEXT = ("Machine-checked Coq theorems over executable models of single_ite
               "LRU cache returns only values invoked for an equal key within the validity period, invokes f exactly on misses, never exceeds "
               "max_size, keeps distinct keys ordered by last use (so the evicted key is the least recently used) and always hits on an unexpired "
               "key among the max_size most recently used; for every schedule of any number of threads at source-line granularity the current "
-              "one-entry single_item_cache returns f of the caller's own arguments (the four-slot wrapper of F-C19-1 is kept as a refuted "
-              "model). The models are tied to orso/tools.py by running real wrappers on exhaustive small-scope and random histories with a "
+              "one-entry single_item_cache and the current lru_cache_with_expiry return only values f produced for the caller's own arguments, "
+              "within the validity period of the caller's clock reading when served from the cache (the four-slot wrapper of F-C19-1 and the "
+              "LRU hit path of F-C19-2 are kept as refuted models). The models are tied to orso/tools.py by running real wrappers on exhaustive small-scope and random histories with a "
               "fake clock, and under a deterministic line-level scheduler on all two-thread interleavings of the shared-access lines, and "
               "evaluating the models on the same histories/schedules inside Coq; a literal property oracle supplies replayable failing "
               "histories and schedules. DataFrame.column_names/columncount are exercised across frames under the same scheduler.")
 LEVEL_NOTE = ("Trusted: Coq kernel + vm_compute; the granularity assumption (one atomic step per source line under the GIL; bytecode-level "
               "interleavings inside a line are not modelled); the AST classification of wrapper lines into clock / cache read / call / cache "
               "write (its result is regenerated into Gen/C19_Shape.v and checked against the model's step list); CPython tuple/dict/frozenset "
-              "equality behind the abstract key function. Partial: the LRU interleaving theorem (returned values were stored under the "
-              "caller's own key, exceptions allowed) is proved for the model of OrderedDict iteration/KeyError behaviour, which is exercised on "
-              "the implementation only through the oracle on scheduled runs, not replayed in Coq. Finding F-C19-2 (LRU wrapper under "
-              "interleaving can serve a value older than the validity period) is refuted in the model and guarded in the harness. "
-              "No axioms (Print Assumptions: closed).")
+              "equality behind the abstract key function. The LRU interleaving theorem (returned values were produced for the "
+              "caller's own key and are within the validity period, exceptions allowed) is proved for a model of OrderedDict iteration/KeyError "
+              "behaviour which is exercised on the implementation only through the oracle on scheduled runs, not replayed in Coq. The wrappers "
+              "before the fixes of F-C19-1 and F-C19-2 are kept as refuted models. No axioms (Print Assumptions: closed).")
 DESIGN_REF = "DESIGN.md section 8, C19"
 COQ_IMPORTS = "From Orso Require Import Model.C19."
 COQ_CHECKS = {"sic": "c19_sic_check", "lru": "c19_lru_check", "conc": "c19_conc_check"}
@@ -76,12 +76,7 @@ ASSUMPTIONS = [
     "argument equality is an equivalence decided by key equality (hypothesis keqb_spec of the theorems); NaN-like values are outside the alphabet",
     "the clock does not go backwards (ticks are naturals); the LRU 'most recently used' theorems use it, the single-item ones do not",
 ]
-KNOWN_WITNESSES = {
-    # caller 0 is paused after invoking f (before storing), the clock moves past the validity period,
-    # caller 1 sweeps, caller 0 stores with its old timestamp, caller 1 is served that entry
-    "F-C19-2": {"k": "conc", "w": "lru", "max": 2, "valid": 5, "pre": [],
-                "thr": [{"p": [1], "kw": []}, {"p": [1], "kw": []}], "sched": [0, 0, 0, 0, ["t", 6], 1, 1]},
-}
+KNOWN_WITNESSES = {}
 
 T0 = 1000
 TIMEOUT = 20.0
@@ -211,22 +206,39 @@ def analyse(deco):
 
 
 _SHAPES = {}
+_SHAPE_ERR = []
 
 
 def shapes():
+    """AST analysis of both wrappers, done once; an unrecognised shape raises ShapeError on every use."""
+    if _SHAPE_ERR:
+        raise ShapeError(_SHAPE_ERR[0])
     if not _SHAPES:
         import orso.tools as T
         from orso.dataframe import DataFrame
 
-        _SHAPES["sic"] = analyse(T.single_item_cache)
-        _SHAPES["lru"] = analyse(T.lru_cache_with_expiry)
-        for attr in ("column_names", "columncount"):
-            prop = DataFrame.__dict__.get(attr)
-            if not isinstance(prop, property) or prop.fget.__code__ is not _SHAPES["sic"][0] or not hasattr(prop.fget, "__wrapped__"):
-                raise ShapeError("DataFrame.%s is not a property wrapped by single_item_cache" % attr)
-        if DataFrame.column_names.fget is DataFrame.columncount.fget:
-            raise ShapeError("column_names and columncount are one wrapper")
+        try:
+            sh = {"sic": analyse(T.single_item_cache), "lru": analyse(T.lru_cache_with_expiry)}
+            for attr in ("column_names", "columncount"):
+                prop = DataFrame.__dict__.get(attr)
+                if not isinstance(prop, property) or prop.fget.__code__ is not sh["sic"][0] or not hasattr(prop.fget, "__wrapped__"):
+                    raise ShapeError("DataFrame.%s is not a property wrapped by single_item_cache" % attr)
+            if DataFrame.column_names.fget is DataFrame.columncount.fget:
+                raise ShapeError("column_names and columncount are one wrapper")
+        except ShapeError as e:
+            _SHAPE_ERR.append(str(e))
+            raise
+        _SHAPES.update(sh)
     return _SHAPES
+
+
+def n_lines(w, default):
+    """Number of shared-access lines of a wrapper (for sizing schedules); the default is used when the
+    shape is unrecognised - observe() then fails closed on every scheduler case."""
+    try:
+        return len(shapes()[w][2])
+    except ShapeError:
+        return default
 
 
 def gen(repo):
@@ -317,8 +329,11 @@ def lru_keys(w):
         raise ShapeError("LRU cache object is %s" % type(c).__name__)
     out = []
     for k, v in c.items():
-        args, fs = k
-        spec = {"p": [enc_value(x) for x in args], "kw": sorted([NAMES.index(n), enc_value(x)] for n, x in fs)}
+        try:
+            args, fs = k
+            spec = {"p": [enc_value(x) for x in args], "kw": sorted([NAMES.index(n), enc_value(x)] for n, x in fs)}
+        except Exception:  # not (args, frozenset(kwargs.items())): reported by the oracle as foreign content
+            spec = {"p": [], "kw": [], "bad": repr(k)[:120]}
         ts = v[0]
         if ts != int(ts):
             raise ValueError("non-integral timestamp in cache")
@@ -461,7 +476,7 @@ SCHEMAS = [["a", "b"], ["c"], ["a", "d", "e"], ["z", "y", "x", "w"]]
 
 def observe(case):
     k = case["k"]
-    sh = shapes()
+    sh = shapes() if k in ("conc", "df") else None
     with Patched() as clock:
         if k in ("sic", "lru"):
             fn = Fn(clock)
@@ -607,7 +622,7 @@ def oracle_lru(case, obs):
             return why
         if o["res"][1] != want_n:
             return f"{where}: expected the value of invocation {want_n}, got invocation {o['res'][1]}"
-        keys = [(canon(kk), ts) for kk, ts in o["keys"]]
+        keys = [((kk["bad"],) if "bad" in kk else canon(kk), ts) for kk, ts in o["keys"]]
         if len(keys) > mx:
             return f"{where}: the cache holds {len(keys)} keys, more than max_size {mx}"
         if keys != [(e["key"], e["ts"]) for e in sorted(held, key=lambda e: e["used"])]:
@@ -683,7 +698,7 @@ def to_coq(case, obs):
         o = "(%s : list (bool * cres))" % L.lst(L.pair(L.boolean(c["hit"]), c_res(c["res"])) for c in obs["calls"])
         return ("sic", "(%s, %s, %s, %s)" % (c_valid(case["valid"]), L.Z(T0), c_hist(case["h"]), o))
     if k == "lru":
-        if not _plain(obs["calls"]):
+        if not _plain(obs["calls"]) or any("bad" in kk for c in obs["calls"] for kk, _ in c["keys"]):
             return None
         o = "(%s : list (bool * cres * list (ckey * Z)))" % L.lst(
             "(%s, %s, (%s : list (ckey * Z)))" % (L.boolean(c["hit"]), c_res(c["res"]), L.lst(L.pair(c_key(kk), L.Z(ts)) for kk, ts in c["keys"]))
@@ -709,13 +724,6 @@ def to_coq(case, obs):
 
 
 def known(case, obs):
-    """F-C19-2: LRU wrapper, finite validity, the clock advances while calls are in flight, and the ONLY
-    thing wrong is the age of a value served from the cache (wrong arguments, unexpected exceptions
-    etc. on the same inputs are still reported)."""
-    if (case["k"] == "conc" and case["w"] == "lru" and case["valid"] is not None
-            and any(e[0] == "t" for e in obs["sched"])
-            and oracle_conc(case, obs) is not None and oracle_conc(case, obs, check_fresh=False) is None):
-        return "F-C19-2"
     return None
 
 
@@ -827,6 +835,11 @@ def corpus():
     for pre, thr in (([C(A([6]))], [A([0]), A([0])]), ([C(a0)], [a1, a1])):
         for kk in range(0, 11):
             yield {"k": "conc", "w": "sic", "valid": None, "pre": pre, "thr": thr, "sched": [0] * kk + [1] * 12 + [0] * 12}
+    # witness of the fixed finding F-C19-2: caller 0 is paused after invoking f (before storing), the
+    # clock moves past the validity period, caller 1 sweeps, caller 0 stores with its old timestamp
+    yield {"k": "conc", "w": "lru", "max": 2, "valid": 5, "pre": [], "thr": [A([1]), A([1])], "sched": [0, 0, 0, 0, Tk(6), 1, 1]}
+    for i, j in ((4, 2), (4, 1), (4, 3), (5, 2), (3, 2), (4, 0)):
+        yield {"k": "conc", "w": "lru", "max": 2, "valid": 5, "pre": [C(a0)], "thr": [a1, a1], "sched": [0] * i + [Tk(6)] + [1] * j + [0] * 12}
     yield {"k": "df", "attr": "column_names", "pre": 2, "thr": [0, 1], "sched": [0, 0, 1, 1, 1, 1, 0, 0]}
     yield {"k": "sic", "valid": 1, "h": [C(a1), C(a1), Tk(1), C(a1), Tk(1), C(a1), C(a0), C(a1)]}
     yield {"k": "lru", "max": 2, "valid": 10, "h": [C(a0), Tk(1), C(a1), Tk(1), C(a0), Tk(1), C(kx1), Tk(8), C(a1), C(a0), C(kx1)]}
@@ -837,7 +850,7 @@ def _letters(v, specs):
 
 
 def exhaustive(tier):
-    n = len(shapes()["sic"][2])
+    n = n_lines("sic", 4)
     quick = tier == "quick"
 
     def it():
@@ -856,8 +869,8 @@ def exhaustive(tier):
             for s in two_thread_schedules(n):
                 yield {"k": "conc", "w": "sic", "valid": V, "pre": pre, "thr": thr, "sched": s}
         # LRU wrapper, two callers, one context switch each way with a clock advance at the first switch
-        # (the neighbourhood of finding F-C19-2; oracle only)
-        nl = len(shapes()["lru"][2]) - 1
+        # (the schedule family of the fixed finding F-C19-2; oracle only)
+        nl = n_lines("lru", 10) - 1
         for pre, thr in (([], [a1, a1]), ([C(a0)], [a1, a1]), ([C(a1)], [a1, a0])):
             for i in range(0, nl):
                 for j in range(0, nl):
@@ -905,8 +918,7 @@ def _rand_sched(rng, nthr, n, ticks):
 
 
 def _rand_conc(rng, w, nthr):
-    sh = shapes()
-    n = len(sh[w][2]) + (4 if w == "lru" else 0)
+    n = n_lines(w, 10 if w == "lru" else 4) + (4 if w == "lru" else 0)
     alphabet = ALPHA_SIC if w == "sic" else ALPHA_HASHABLE
     specs = rng.sample(alphabet, rng.randint(1, 3))
     valid = rng.choice([None, V, V, 0])
@@ -914,6 +926,43 @@ def _rand_conc(rng, w, nthr):
     thr = [rng.choice(specs) for _ in range(nthr)]
     return {"k": "conc", "w": w, "max": rng.randint(1, 3), "valid": valid, "pre": pre, "thr": thr,
             "sched": _rand_sched(rng, nthr, n, ticks=True)}
+
+
+def _rand_stale(rng):
+    """The schedule family of F-C19-2: one caller runs i shared lines (somewhere around 'has invoked f, has
+    not stored yet'), the clock jumps by about the validity period, another caller with (mostly) equal
+    arguments runs j lines, then everybody finishes in a random order."""
+    w = rng.choice(["lru", "lru", "sic"])
+    n = n_lines(w, 10 if w == "lru" else 4)
+    alphabet = ALPHA_HASHABLE[:6]
+    a = rng.choice(alphabet)
+    nthr = rng.choice([2, 2, 3])
+    thr = [a] + [a if rng.random() < 0.8 else rng.choice(alphabet) for _ in range(nthr - 1)]
+    valid = rng.choice([V, V, 1, 0])
+    pre = _rand_hist(rng, alphabet[:3], valid, 0, 3)
+    first = rng.randrange(nthr)
+    others = [t for t in range(nthr) if t != first]
+    jump = Tk(rng.choice([valid, valid + 1, valid + 1, 2 * valid + 1]))
+    if rng.random() < 0.7:
+        # tight: `first` stops just after its call of f (clock, sweep reads, dels, lookup, call), the others
+        # stop just after their sweep, `first` stores, the others go on
+        held = len({repr(canon(e[1])) for e in pre if e[0] == "c"})
+        i = (4 if w == "lru" else 3) + rng.randint(0, held + 1)
+        sched = [first] * i + [jump]
+        for t in others:
+            sched += [t] * (2 + rng.randint(0, held + 1))
+        sched += [first] * rng.randint(1, 2)
+    else:
+        sched = [first] * rng.randint(1, n) + [jump]
+        for t in others:
+            sched += [t] * rng.randint(0, n)
+            if rng.random() < 0.3:
+                sched.append(Tk(rng.choice([1, valid + 1])))
+    order = list(range(nthr))
+    rng.shuffle(order)
+    for t in order:
+        sched += [t] * rng.randint(0, n + 4)
+    return {"k": "conc", "w": w, "max": rng.randint(1, 2), "valid": valid, "pre": pre, "thr": thr, "sched": sched}
 
 
 def _random_case(rng, i):
@@ -929,8 +978,8 @@ def _random_case(rng, i):
     if m == 7:
         return _rand_conc(rng, "sic", 3)
     if m == 8:
-        return _rand_conc(rng, "lru", rng.choice([2, 3]))
-    n = len(shapes()["sic"][2])
+        return _rand_conc(rng, "lru", rng.choice([2, 3])) if (i // 10) % 2 else _rand_stale(rng)
+    n = n_lines("sic", 4)
     nthr = rng.choice([2, 3])
     return {"k": "df", "attr": rng.choice(["column_names", "columncount"]), "pre": rng.randrange(4),
             "thr": [rng.randrange(4) for _ in range(nthr)], "sched": [e for e in _rand_sched(rng, nthr, n, ticks=False)]}
@@ -943,7 +992,9 @@ def generate(rng, tier):
 
 
 def search(rng):
-    n = len(shapes()["sic"][2])
+    n = n_lines("sic", 4)
+    for c in corpus():
+        yield c
     for pre, thr in CONC_CONFIGS_QUICK + CONC_CONFIGS_MORE:
         for a, b in ((0, 1), (1, 0)):
             for i in range(n + 1):
